@@ -33,6 +33,37 @@ def layered_dataset(rng, nmax=6, mmax=5):
     return D
 
 
+def sparse_component_dataset(rng, nmax=6):
+    """a component of 3-4 elements on which the rankings disagree (one SCC, not all-tieable), one or two
+    other elements ranked consistently before it, and SEVERAL rankings that rank none of the component's
+    elements (they only contribute 'both non-ranked' terms to its sub-problem)"""
+    k = rng.randint(3, min(4, nmax - 1))
+    comp = list(range(1, k + 1))
+    others = [k + 1 + i for i in range(rng.randint(1, max(1, min(2, nmax - k))))]
+    D = []
+    for _ in range(rng.randint(2, 4)):
+        perm = comp[:]
+        rng.shuffle(perm)
+        r = [[o] for o in others if rng.random() < 0.8] + random_ranking_buckets(rng, perm)
+        D.append(r)
+    for _ in range(rng.randint(2, 4)):          # rankings missing the whole component
+        D.append([[o] for o in others if rng.random() < 0.9] if rng.random() < 0.8 else [])
+    rng.shuffle(D)
+    if not any(D):
+        D[0] = [[comp[0]]]
+    return D
+
+
+def random_ranking_buckets(rng, ordered):
+    r = []
+    for e in ordered:
+        if r and rng.random() < 0.35:
+            r[-1].append(e)
+        else:
+            r.append([e])
+    return r
+
+
 def opt_scheme(rng):
     r = rng.random()
     if r < 0.25:
